@@ -14,7 +14,9 @@ Families (the first is the original lattice; the others were added in the streng
               above the largest code, off-grid below / above) x leaky slope
   modes       every quantizer that reads the module-level `_sigmoid` (quantized_sigmoid,
               quantized_tanh, quantized_relu(use_sigmoid=1)) x mode at construction x mode at call
-  reassign    construct with a decoy configuration, assign the attributes afterwards, then call"""
+  reassign    construct with a decoy configuration, assign the attributes afterwards, then call
+  history     ONE object of every class through a sequence of calls / reporters / attribute
+              assignments / _set_trainable_parameter() / being handed to layers (`fixedq_hist`)"""
 from fractions import Fraction as F
 import itertools
 
@@ -448,6 +450,11 @@ def lattice(kind, cfg):
       # the updated quantizer divides by alpha * 2^(integer - ub) first: alpha is part of the step
       return step * gain, lo, 2 ** ub - 1, F(1)
     return step, lo, 2 ** ub - 1, gain
+  if kind == "qbitsauto":
+    # quantized_bits under alpha="auto*" GIVEN the scale it reports: codes -(2^(bits-1)-1) .. 2^(bits-1)-1
+    # (only the symmetric case exists; keep_negative is not consulted) of size scale * 2^integer
+    half = 2 ** (cfg["bits"] - 1) - 1
+    return F(cfg["scale"]) * F(2) ** cfg["integer"], -half, half, F(1)
   if kind in ("qrelu", "qrelusig"):
     nsb = cfg["bits"] - (0 if cfg["slope_log"] is None else 1)
     if nsb < 0:
@@ -479,7 +486,7 @@ def sigmoid_exact(mode, x):
 
 def surrogate_exact(kind, cfg, x):
   """exact rational underlying activation (None where it is an oracle input: real tanh / sigmoid)"""
-  if kind in ("qbits", "qlinear"):
+  if kind in ("qbits", "qlinear", "qbitsauto"):
     return x
   if kind == "qrelu":
     step, lo, hi, _ = lattice(kind, cfg)
@@ -796,6 +803,10 @@ def collect(run: core.Run, tier: str, prop: str):
       family = ("reassign" if cfg.get("route") in ("reassign", "reassign-alpha") else
                 "modes" if "mode" in cfg else "relu-opts")
       _collect_scalar(run, rng2, kind, cfg, family, jobs, recs)
+  Q.set_internal_sigmoid("hard")
+  # histories on one object (a stream of its own as well)
+  from . import fixedq_hist
+  fixedq_hist.collect(run, tier, jobs, recs)
   Q.set_internal_sigmoid("hard")
   outs = core.run_driver(prop, [l for l, _ in jobs], driver="C01")
   for (_, done), o in zip(jobs, outs):
